@@ -125,7 +125,40 @@ impl Cx<'_> {
         }
     }
 
+    /// Hands `b` to a decoder at an address congruent to 0..3 modulo 4 in turn (inputs of up to
+    /// 4 KiB; a reused scratch buffer keeps this cheap): nothing in a decoder's contract says that
+    /// a network buffer is word-aligned.
+    fn placed(&mut self, b: &[u8], f: fn(&mut Self, &[u8])) {
+        thread_local! {
+            static SCRATCH: std::cell::Cell<Vec<u8>> = const { std::cell::Cell::new(Vec::new()) };
+        }
+        if b.len() > 4096 {
+            return f(self, b);
+        }
+        let off = (self.calls % 4) as usize;
+        let mut v = SCRATCH.with(|s| s.take());
+        v.clear();
+        v.resize(off, 0xEE);
+        v.extend_from_slice(b);
+        f(self, &v[off..]);
+        SCRATCH.with(|s| s.set(v));
+    }
     fn adc(&mut self, b: &[u8]) {
+        self.placed(b, Self::adc_at)
+    }
+    fn chunk(&mut self, b: &[u8]) {
+        self.placed(b, Self::chunk_at)
+    }
+    fn pwb(&mut self, b: &[u8]) {
+        self.placed(b, Self::pwb_at)
+    }
+    fn trg(&mut self, b: &[u8]) {
+        self.placed(b, Self::trg_at)
+    }
+    fn cb(&mut self, b: &[u8]) {
+        self.placed(b, Self::cb_at)
+    }
+    fn adc_at(&mut self, b: &[u8]) {
         if self.stop {
             return;
         }
@@ -154,7 +187,7 @@ impl Cx<'_> {
             Err(m) => self.report("adc", vec![hex(b)], m),
         }
     }
-    fn chunk(&mut self, b: &[u8]) {
+    fn chunk_at(&mut self, b: &[u8]) {
         if self.stop {
             return;
         }
@@ -187,7 +220,7 @@ impl Cx<'_> {
         }
         let _ = format!("{p}{p:?}");
     }
-    fn pwb(&mut self, b: &[u8]) {
+    fn pwb_at(&mut self, b: &[u8]) {
         if self.stop {
             return;
         }
@@ -242,7 +275,7 @@ impl Cx<'_> {
             Err(m) => self.report("chunks", datagrams.iter().map(|d| hex(d)).collect(), m),
         }
     }
-    fn trg(&mut self, b: &[u8]) {
+    fn trg_at(&mut self, b: &[u8]) {
         if self.stop {
             return;
         }
@@ -273,7 +306,7 @@ impl Cx<'_> {
             Err(m) => self.report("trg", vec![hex(b)], m),
         }
     }
-    fn cb(&mut self, b: &[u8]) {
+    fn cb_at(&mut self, b: &[u8]) {
         if self.stop {
             return;
         }
